@@ -396,6 +396,10 @@ def rand_prob(g, m, zeros=False, bits=10):
 # ----------------------------------------------------------------------------- correspondence
 def correspondence(ctx):
     ctx.notes.append("not proved (oracle only): the QMPT object-parametrisation formula, which the code does not have (finding D13)")
+    ctx.partial = [{"theorem": "QM.C19.fisherTotal_single_partial",
+                    "missing": "closed sum Σ_j w_j·F_j entrywise for an arbitrary number of distributions (proved: one distribution, and the "
+                               "accumulation step fisherAcc_step); fisherQtTotal only as the structural sum of its terms; the weights n_s/N of "
+                               "the Cramér–Rao bound are computed by the harness as the code does"}]
     drv = Driver("C19")
     pend = []   # (op, input, impl, idx, kind)
 
@@ -498,7 +502,7 @@ def correspondence(ctx):
                 ws[0] = -1.0
             if t % 5 == 3:      # wrong number of weights (one too few / one too many)
                 ws = ws[:-1] if (t // 5) % 2 == 0 and S > 1 else ws + [1.0]
-            toks = [EPS8, qlist(ws), S] + [qlist(x) for x in pss] + [S]
+            toks = ["default", qlist(ws), S] + [qlist(x) for x in pss] + [S]
             for gs in gss:
                 toks += [len(gs)] + [qlist(x) for x in gs]
             ask_mat("fishertot", ([x.tolist() for x in pss], nv2, ws),
@@ -522,6 +526,27 @@ def correspondence(ctx):
         pend.append(("mseprob", t, (float(mse), float(std) ** 2), drv.ask("mseprob", *toks), "pair"))
         ctx.corr_ops.add("mseprob")
         ctx.case(("se", t, S, m, R))
+        # degenerate shapes: one repetition (std is nan), an array of length 1 (numpy broadcasts), mismatched lengths (numpy raises)
+        with np.errstate(all="ignore"):
+            one = ([xsl[0]], [ysl[0]])
+            m1, s1 = mu.calc_mse_prob_dists(*one)
+        pend.append(("mseprob", (t, "one repetition"), (float(m1), float(s1) ** 2),
+                     drv.ask("mseprob", 1, S, *[qlist(x) for x in xsl[0]], 1, S, *[qlist(y) for y in ysl[0]]), "pair"))
+        xb = [dy(g, (1,))] + xsl[0][1:]
+        sb = float(mu.calc_se(xb, ysl[0]))
+        ask_num("se", (t, "broadcast"), sb, S, *[qlist(x) for x in xb], S, *[qlist(y) for y in ysl[0]])
+        if m > 2:
+            xbad = [dy(g, (m - 1,))] + xsl[0][1:]
+            try:
+                mu.calc_se(xbad, ysl[0]); impl_bad = "ok"
+            except ValueError:
+                impl_bad = "err broadcast"
+            pend.append(("se", (t, "length mismatch"), impl_bad,
+                         drv.ask("se", S, *[qlist(x) for x in xbad], S, *[qlist(y) for y in ysl[0]]), "errkind"))
+        # python's zip truncates the outer lists
+        if S > 1:
+            ask_num("se", (t, "outer truncation"), float(mu.calc_se(xsl[0][:-1], ysl[0])),
+                    S - 1, *[qlist(x) for x in xsl[0][:-1]], S, *[qlist(y) for y in ysl[0]])
     # ---- the tomography formulas on real tomography objects
     gq = ctx.npgen(2)
     confs = []
@@ -562,11 +587,11 @@ def correspondence(ctx):
             var = true.to_var()
             j = int(gq.integers(0, S))
             base = [A.shape[0], A.shape[1], qlist(A.flatten()), qlist(b), S]
-            ask_mat("fisherqt", key + (j,), impl_mat(lambda: qt.calc_fisher_matrix(j, var)), *base, j, qlist(var), EPS8)
+            ask_mat("fisherqt", key + (j,), impl_mat(lambda: qt.calc_fisher_matrix(j, var)), *base, j, qlist(var), "default")
             Ntot = int(gq.integers(10, 1000))
             ws = [n_ / Ntot for n_ in ns]
             Ftot = qt.calc_fisher_matrix_total(var, ws)
-            ask_mat("fisherqttot", key, impl_mat(lambda: Ftot), *base, qlist(ws), qlist(var), EPS8)
+            ask_mat("fisherqttot", key, impl_mat(lambda: Ftot), *base, qlist(ws), qlist(var), "default")
             Finv = np.linalg.inv(Ftot)
             crb = float(qt.calc_cramer_rao_bound(var, Ntot, ns))
             if kind == "povmt" and flag:
@@ -629,7 +654,15 @@ def correspondence(ctx):
                 ctx.disagree(op, inp, impl, line[:300])
         elif kindc == "pair":
             t = line.split()
-            if not (close(impl[0], unq(t[1])) and close(impl[1], unq(t[2]), 1e-8)):
+
+            def same(a, tok, tol):
+                if tok == "nan":
+                    return a != a
+                return a == a and close(a, unq(tok), tol)
+            if t[0] != "ok" or not (same(impl[0], t[1], 1e-9) and same(impl[1], t[2], 1e-8)):
+                ctx.disagree(op, inp, impl, line[:300])
+        elif kindc == "errkind":
+            if (line.split()[0] == "ok") != (impl == "ok") or (impl != "ok" and line != impl):
                 ctx.disagree(op, inp, impl, line[:300])
         else:
             t = line.split()
